@@ -9,6 +9,7 @@ import (
 	"fmt"
 	"os"
 	"strings"
+	"time"
 
 	"github.com/cube2222/octosql/aggregates"
 	"github.com/cube2222/octosql/execution"
@@ -28,13 +29,17 @@ type scriptSource struct {
 	events []lib.Event
 	fail   bool
 	f      *fired
+	// steer the interleaving a join sees (the model covers every interleaving): sleep before the first / after the last event
+	delayStart, delayEnd time.Duration
 }
 
 func (s *scriptSource) Run(ctx execution.ExecutionContext, produce execution.ProduceFn, metaSend execution.MetaSendFn) error {
+	time.Sleep(s.delayStart)
 	inner := &lib.ScriptSource{Events: s.events}
 	if err := inner.Run(ctx, produce, metaSend); err != nil {
 		return err
 	}
+	time.Sleep(s.delayEnd)
 	if s.fail {
 		s.f.any = true
 		return lib.ErrInjected
@@ -139,17 +144,18 @@ func (j *joinedNode) Run(ctx execution.ExecutionContext, produce execution.Produ
 // ---- plans ---------------------------------------------------------------------------------------
 
 type plan struct {
-	kind     string // script filter map distinct ost limit unnest sgb cgb buffer lookup sjoin ojoin
-	src, rhs *plan
-	events   []lib.Event
-	fail     bool
-	exprs    []cexpr
-	dirs     []int
-	hasLimit bool
-	k        int64
-	noretr   bool
-	id       int
-	bad      octosql.Value
+	kind                 string // script filter map distinct ost limit unnest sgb cgb buffer lookup sjoin ojoin
+	src, rhs             *plan
+	events               []lib.Event
+	fail                 bool
+	exprs                []cexpr
+	dirs                 []int
+	hasLimit             bool
+	k                    int64
+	noretr               bool
+	id                   int
+	bad                  octosql.Value
+	delayStart, delayEnd time.Duration
 }
 
 func (p *plan) coq() string {
@@ -234,7 +240,7 @@ func (p *plan) build(f *fired) execution.Node {
 	}
 	switch p.kind {
 	case "script":
-		return &scriptSource{events: p.events, fail: p.fail, f: f}
+		return &scriptSource{events: p.events, fail: p.fail, f: f, delayStart: p.delayStart, delayEnd: p.delayEnd}
 	case "filter":
 		return nodes.NewFilter(p.src.build(f), mkExpr(p.exprs[0], f))
 	case "map":
@@ -462,6 +468,7 @@ func main() {
 		r := rng.Fork()
 		if r.Chance(1, 8) {
 			// joins: left and right stacks (limits allowed inside a side), nothing data-dependent above
+			var leaves []*plan
 			mk := func() *plan {
 				ops := genStack(r, r.Intn(2), "", true, true)
 				evs := genScript(r, genOpts{singleKey: hasKind(ops, "sgb") >= 0, lists: hasKind(ops, "unnest") >= 0, noRetr: true,
@@ -476,6 +483,7 @@ func main() {
 					pos := r.Intn(len(evs) + 1)
 					leaf.events, leaf.fail = evs[:pos], true
 				}
+				leaves = append(leaves, leaf)
 				return link(ops, leaf)
 			}
 			kind := "sjoin"
@@ -483,6 +491,19 @@ func main() {
 				kind = "ojoin"
 			}
 			j := &plan{kind: kind, src: mk(), rhs: mk(), exprs: []cexpr{genExpr(r, 0, true), genExpr(r, 0, true)}}
+			if r.Chance(1, 3) {
+				j.exprs = []cexpr{{kind: "col", i: 0}, {kind: "col", i: 0}}
+			}
+			// which channel closes first is a race: hold one side back so that both orders occur
+			switch r.Intn(3) {
+			case 0:
+				leaves[0].delayEnd = 3 * time.Millisecond
+			case 1:
+				leaves[1].delayEnd = 3 * time.Millisecond
+			}
+			if r.Chance(1, 4) {
+				leaves[r.Intn(2)].delayStart = 2 * time.Millisecond
+			}
 			above := genStack(r, r.Intn(2), "", false, false)
 			for _, o := range above {
 				if o.kind == "unnest" || o.kind == "lookup" || o.kind == "sgb" || o.kind == "cgb" || o.kind == "ost" {
@@ -527,7 +548,7 @@ func main() {
 		evs := genScript(r, o)
 		cf.Count("top_" + ops[0].kind)
 		cf.Count(fmt.Sprintf("depth_%d", depth))
-		if r.Chance(1, 5) {
+		if r.Chance(1, 2) {
 			cf.Count("inject_none")
 			addCase(link(ops, &plan{kind: "script", events: evs}), level)
 			continue
